@@ -1,4 +1,5 @@
 import PPProofs.Lemmas.LRBody
+import PPProofs.Lemmas.ParseAdv
 /-!
 # Generic facts about the growth loop: congruence on the values it ever stores, and commuting with a location fix-up
 -/
@@ -119,5 +120,66 @@ theorem enhFix_ne_idx (pre : Nat) (o : Out) (h : o ≠ .idx) : enhFix pre o ≠ 
   | fail c l => cases c <;> simp [enhFix]
   | idx => exact absurd rfl h
   | hang => simp [enhFix]
+
+/-! ### discharging "a successful tail strictly advances": the tail starts with a single-character literal (the operator) -/
+
+theorem lit1Impl_strict {c : Char} {s : List Char} {loc e : Nat} {ts : List Tok} (h : lit1Impl c s loc = .ok e ts) :
+    loc < e := by
+  unfold lit1Impl at h
+  split at h
+  · simp at h
+  · split at h <;> simp at h; omega
+
+theorem parse_lit1_strict (g : Grammar) (s : List Char) (f t : Nat) (nd : Node) (ch : Char)
+    (hg : g[t]? = some nd) (hk : nd.kind = .lit1 ch) :
+    ∀ loc a c e ts, parse g s (f + 1) t loc a c = .ok e ts → loc < e := by
+  intro loc a c e ts h
+  simp only [parse] at h
+  unfold parseStep at h
+  rw [hg] at h
+  simp only at h
+  split at h
+  · rename_i o hpre; subst h
+    split at hpre
+    · have := preParse_abort (parse g s f) nd s loc _ hpre; simp [Out.isOk] at this
+    · simp at hpre
+  · rename_i pre hpre
+    have hpl : loc ≤ pre := by
+      split at hpre
+      · exact preParse_ge (parse g s f) nd s loc pre hpre
+      · simp at hpre; omega
+    have hpi : parseImpl g (parse g s f) nd s pre a = lit1Impl ch s pre := by
+      unfold parseImpl; rw [hk]
+    rw [hpi] at h
+    cases hi : lit1Impl ch s pre with
+    | ok e' ts' =>
+      rw [hi] at h
+      simp only at h
+      have he := lit1Impl_strict hi
+      split at h
+      · have := runActs_end _ _ _ _ _ _ h; omega
+      · simp at h; omega
+    | fail c' l => rw [hi] at h; simp at h
+    | idx =>
+      rw [hi] at h
+      by_cases hc : (nd.mayIdx || decide (pre ≥ s.length)) = true <;> simp [hc] at h
+    | hang => rw [hi] at h; simp at h
+
+/-- if the first element of the tail strictly advances, so does the tail -/
+theorem tailOf_strict (g : Grammar) (s : List Char) (f t0 : Nat) (rest : List Nat) (hns : isStopOf g t0 = false)
+    (hfirst : ∀ loc a c e ts, parse g s f t0 loc a c = .ok e ts → loc < e) :
+    ∀ a e e' ts', tailOf g s f (t0 :: rest) a e = .ok e' ts' → e < e' := by
+  intro a e e' ts' h
+  unfold tailOf andRest at h
+  simp only [hns, Bool.false_eq_true, if_false] at h
+  cases hp : parse g s f t0 e a true with
+  | ok l tk =>
+    rw [hp] at h
+    have h1 := hfirst _ _ _ _ _ hp
+    have h2 := andRest_adv (parse_adv g s f) _ _ _ _ _ _ _ _ _ h
+    omega
+  | fail c l => rw [hp] at h; simp at h
+  | idx => rw [hp] at h; simp at h
+  | hang => rw [hp] at h; simp at h
 
 end PP.Parse
